@@ -382,8 +382,14 @@ pub fn mutants(c: &Corpus, tier: &str) -> Vec<String> {
             let first = toks[i].chars().next().unwrap_or(' ');
             if first.is_ascii_digit() {
                 for b in ["ALL", "NULL", "DEFAULT"] { let mut t = toks.clone(); t[i] = b.to_string(); push(t, &mut out); }
-            } else if first == '\'' && (li + i) % 2 == 0 {
-                let mut t = toks.clone(); t[i] = "NULL".to_string(); push(t, &mut out);
+            } else if first == '\'' {
+                if (li + i) % 2 == 0 { let mut t = toks.clone(); t[i] = "NULL".to_string(); push(t, &mut out); }
+                // a longer payload: the body of a plain string literal written twice
+                let w = &toks[i];
+                if w.len() >= 3 && w.len() <= 12 && w.ends_with('\'') && !w[1..w.len() - 1].contains('\'') {
+                    let body = &w[1..w.len() - 1];
+                    let mut t = toks.clone(); t[i] = format!("'{body}{body}'"); push(t, &mut out);
+                }
             }
         }
     }
